@@ -603,6 +603,45 @@ def solveX (late : Bool) (E : Env ω ρ ξ α) (cb : Option (CallbackX ω)) (d :
 
 end
 
+/-! ## a callback that raises -/
+
+section
+variable {ω ρ ξ α L : Type} [DecidableEq L]
+
+/-- the part of one pass that precedes the callback: `for self.itnum in …`, `self.step()`, the NaN
+    test, `insert`, `self.timer.stop()` -/
+def bodyHead (E : Env ω ρ ξ α) (d : Drv ω ρ L) (i : Int) : Drv ω ρ L × Outcome :=
+  let d := { d with itnum := i }
+  let d := { d with world := E.step d.world, clock := d.clock + E.stepTicks d.world }
+  if d.nanstop && !(workingVarsFinite E.fin (E.vars d.world)) then (d, .nan)
+  else
+    let row : Row ρ := ⟨d.itnum, d.timer.elapsedDefault true d.clock, E.fields d.world⟩
+    let d := { d with rows := statsInsert d.rows row }
+    match d.timerStop with
+    | (d, false) => (d, .key)
+    | (d, true) => (d, .ok)
+
+/-- `solve(callback)` whose callback raises an exception in its invocation of iteration `j`
+    (0-based) of the call, after having changed the state by `pr` and taken `pt` ticks.
+    `none`: that exception propagates out of `solve` — `self.timer.start()`, the rest of the loop,
+    the final `timer.stop()`, the increment and `end()` are all skipped; `some o`: the call ended
+    before the callback of iteration `j` was entered. -/
+def solveRaise (E : Env ω ρ ξ α) (c : Callback ω) (pr : ω → ω) (pt : ω → Nat) (d : Drv ω ρ L) (j : Nat) :
+    Drv ω ρ L × Option Outcome :=
+  let d0 := d.timerStart
+  if d0.maxiter.toNat ≤ j then ((solve E (some c) d).1, some (solve E (some c) d).2)
+  else
+    match loop E (some c) j d0.itnum d0 with
+    | (dj, .ok) =>
+      match bodyHead E dj (d0.itnum + j) with
+      | (d1, .ok) =>
+        let rec_ : CbRec ω := ⟨d1.itnum, d1.world, d1.clock, d1.clock + pt d1.world⟩
+        ({ d1 with world := pr d1.world, clock := d1.clock + pt d1.world, cblog := d1.cblog ++ [rec_] }, none)
+      | (d1, o) => (d1, some o)
+    | (dj, o) => (dj, some o)
+
+end
+
 /-! ## `scico.util.ContextTimer` -/
 
 /-- `ContextTimer.action` -/
